@@ -73,6 +73,8 @@ def main():
     budget, seed = os.environ.get("BUDGET", "20"), os.environ.get("SEED", "1")
     if not os.path.isdir(MUT):
         subprocess.run(["rsync", "-a", "--exclude", "target", "--exclude", ".git", "/repo/", MUT + "/"], check=True)
+    # artefacts of an earlier user of the same scratch path (e.g. selftest_seeded.sh with MUT=...) must not be re-used: every crate root new
+    subprocess.run("touch " + MUT + "/frost-*/src/lib.rs", shell=True, check=True)
     # whatever an earlier (possibly interrupted) run left behind
     for _, rel, _, _, _ in MUTANTS.values():
         restore(rel)
